@@ -32,18 +32,19 @@ var answerKinds = []string{"ok", "401-digest", "401-basic", "404", "500", "malfo
 var playFaults = []string{"stay-open", "eof", "silence-past-deadline", "malformed-frame", "unknown-channel", "garbage"}
 
 type camera struct {
-	srv         *vnet.PipeEnd
-	user, pw    string
-	sdp         string
-	packets     int
-	requests    []rtspwire.Item
-	challenged  string // "", digest, basic
-	nonce       string
-	forever     bool
-	badAuth     []string
-	played      bool
-	faultsTaken []string
-	done        bool
+	srv             *vnet.PipeEnd
+	user, pw        string
+	sdp             string
+	packets         int
+	requests        []rtspwire.Item
+	challenged      string // "", digest, basic
+	nonce           string
+	forever         bool
+	rejectedCorrect bool
+	badAuth         []string
+	played          bool
+	faultsTaken     []string
+	done            bool
 }
 
 func h(s string) string { x := md5.Sum([]byte(s)); return hex.EncodeToString(x[:]) }
@@ -111,7 +112,7 @@ func (c *camera) run() {
 				c.reply(req, 200, "OK", map[string]string{"Public": "OPTIONS"}, "")
 				continue
 			}
-			if c.challenged != "" && req.Get("Authorization") != "" && !c.authOK(req) && !c.forever {
+			if c.challenged != "" && req.Get("Authorization") != "" && !c.authOK(req) && !c.forever && !c.rejectedCorrect {
 				c.badAuth = append(c.badAuth, fmt.Sprintf("%s carries a wrong Authorization: %q", req.Method, req.Get("Authorization")))
 			}
 			if c.challenged != "" && req.Get("Authorization") == "" {
@@ -127,6 +128,11 @@ func (c *camera) run() {
 			}
 			if kind != 0 {
 				c.faultsTaken = append(c.faultsTaken, req.Method+":"+answerKinds[kind])
+				if strings.HasPrefix(answerKinds[kind], "401") && c.challenged != "" && req.Get("Authorization") != "" {
+					// the camera refuses a correct Authorization: the client's fall-back (MD5 of the
+					// password) is then legitimate and no longer judged
+					c.rejectedCorrect = true
+				}
 			}
 			switch answerKinds[kind] {
 			case "ok":
@@ -226,14 +232,14 @@ const sdpRel = "v=0\r\no=- 0 0 IN IP4 10.0.0.9\r\ns=cam\r\nc=IN IP4 0.0.0.0\r\nt
 const sdpAbs1 = "v=0\r\no=- 0 0 IN IP4 10.0.0.9\r\ns=cam\r\nc=IN IP4 0.0.0.0\r\nt=0 0\r\nm=video 0 RTP/AVP 96\r\na=rtpmap:96 H264/90000\r\na=fmtp:96 packetization-mode=1; sprop-parameter-sets=Z2QAH6zZQFAFuhAAAAMAEAAAAwPI8YMZYA==,aO+8sA==\r\na=control:rtsp://cam:554/live/1/trackID=0\r\n"
 
 type cfgT struct {
-	name        string
-	pattern     string
-	url         string
-	request     string
-	sdp         string
-	tracks      int
-	user, pw    string
-	packets     int
+	name     string
+	pattern  string
+	url      string
+	request  string
+	sdp      string
+	tracks   int
+	user, pw string
+	packets  int
 }
 
 func configs() []cfgT {
@@ -420,6 +426,28 @@ func pullScenario(cf cfgT, requesters int, secondRequest bool) func(x *vrt.Exec)
 				}
 			}
 			_ = found
+		}
+		// concurrent pulls of one path: once the cameras send more media, every pull but the one whose
+		// stream is registered must notice that it was replaced and hang up
+		if requesters > 1 && len(w.cams) > 1 && !strings.Contains(faults(), ":") {
+			for k := 0; k < 2; k++ {
+				for i, c := range w.cams {
+					if !c.done && c.played {
+						p := hx.Pkt(0, 96, true, uint16(500+10*k+i), uint32(90000*(k+1)), rtppack.H264Single(hx.NAL(2, 1, 9, byte(0x30+i))))
+						c.srv.Write(frame(0, p.Data))
+					}
+				}
+				vrt.WhenIdle()
+			}
+			open := 0
+			for _, cl := range w.conns {
+				if !cl.IsClosed() {
+					open++
+				}
+			}
+			if open != 1 || stats.RtspConns.GetSample().Active != base+1 {
+				x.Failf("replaced-pull-keeps-running", "%s: %d pulls were started for one path; after more media %d camera connections are still open and the connection counter is %d above the baseline (want 1 and 1)", name, len(w.cams), open, stats.RtspConns.GetSample().Active-base)
+			}
 		}
 		// release everything: close the camera side, then nothing may remain
 		for _, c := range w.cams {
